@@ -37,7 +37,8 @@ CLAIMS = {
     "C13": dict(
         text=("Lean theorems (Props/C13.lean): integer casts are identity-or-none; a decimal rescale never exceeds the target precision; the down-scaling computation is "
               "round-half-away-from-zero for every value and every power of ten (roundAdj_half_away: nearest multiple, ties away from zero - unbounded, by arithmetic on quotient/remainder); "
-              "boolean text round trip; documented parser facts. Tie: the real Parser/Formatter implementations (dates over 0001..9999 incl. whole years, year boundaries, leap days; integer and "
+              "boolean text round trip; parse_format_int - for every integer width and signedness and every value in range, parsing the formatted text gives the value back (digits by well-founded recursion, sign, range check; "
+              "parse_format_nat for the digit strings); documented parser facts. Tie: the real Parser/Formatter implementations (dates over 0001..9999 incl. whole years, year boundaries, leap days; integer and "
               "decimal texts incl. malformed) and SQL casts (int->int exhaustive for 8/16-bit sources, decimal rescales with ties of both signs, int->decimal, f64->int, text round trips) "
               "against Core/Cast.lean and against exact oracles."),
         note=TB + "Python datetime/big integers are the oracle for civil dates and exact rounding; chrono's lenient date parsing (whitespace, digit counts) and float<->text are third-party/out of the model.",
